@@ -103,7 +103,7 @@ type Contract struct {
 var reEns = regexp.MustCompile(`^ensures(?:\[([^\]]+)\])?\s+(.*)$`)
 var reInv = regexp.MustCompile(`^invariant(?:\[([^\]]+)\])?\s+(.*)$`)
 var reDer = regexp.MustCompile(`^derive(?:\[([^\]]+)\])?\s+(.*)$`)
-var reCut = regexp.MustCompile(`^after\s+(store|def|call|block)\s*(\S*)\s+#(\d+)$`)
+var reCut = regexp.MustCompile(`^(?:after|before)\s+(store|def|call|block)\s*(\S*)\s+#(\d+)$`)
 
 func splitTop(s, sep string) []string {
 	var out []string
@@ -338,6 +338,12 @@ func ParseContracts(file string) ([]*Contract, error) {
 				return nil, fail(fmt.Errorf("bad cut anchor %q", rest))
 			}
 			c := &Cut{Anchor: rest, Kind: m[1], Target: m[2], Index: -1}
+			if strings.HasPrefix(rest, "before") {
+				if c.Kind != "def" {
+					return nil, fail(fmt.Errorf("'before' anchors are only supported for def"))
+				}
+				c.Kind = "beforedef"
+			}
 			c.Ord, _ = strconv.Atoi(m[3])
 			if i := strings.Index(c.Target, "["); i >= 0 && strings.HasSuffix(c.Target, "]") {
 				c.Index, _ = strconv.Atoi(c.Target[i+1 : len(c.Target)-1])
